@@ -323,8 +323,9 @@ int tr_send_sim(const void *sock, const void *pdu, const size_t len, const time_
 		return 0;
 	const uint8_t *b = (const uint8_t *)pdu;
 	p.out_stream.insert(p.out_stream.end(), b, b + n);
-	for (size_t i = 0; i < n; i++)
-		digest(W.dig_sent, ((uint64_t)p.si << 8) | b[i]);
+	if (sim_now_ns() < W.digest_until)
+		for (size_t i = 0; i < n; i++)
+			digest(W.dig_sent, ((uint64_t)p.si << 8) | b[i]);
 	sim_log(EV_IO, (4u << 8) | (unsigned)p.si, n);
 	W.ctx.count("bytes_sent", n);
 	cache_on_client_bytes(W, p);
@@ -580,9 +581,14 @@ void group_oracle_on_status(World &W, const struct rtr_mgr_group *group, int sta
 	}
 	if (status == RTR_MGR_CLOSED && prev != RTR_MGR_CLOSED && !W.oper_busy) {
 		// shut down by failover: only on behalf of a strictly more preferred ESTABLISHED group
+		// the shutdown is carried out by the thread that reported a more preferred group ESTABLISHED (it may take
+		// long: rtr_stop joins threads; the establishing group can have lost that status again meanwhile)
 		bool ok = false;
 		for (auto &o : W.ginfo)
 			if (!o.removed && o.pref < g->pref && o.status == RTR_MGR_ESTABLISHED)
+				ok = true;
+		for (auto &pd : W.gpend)
+			if (pd.kind == 1 && pd.task == sim_self() && pd.pref < g->pref)
 				ok = true;
 		W.ctx.count("probe_group_closed_by_failover");
 		if (!ok)
@@ -616,7 +622,8 @@ void status_cb(const struct rtr_mgr_group *group, enum rtr_mgr_status status, co
 	sim_log(EV_CB, ((uint64_t)group->preference << 16) | ((uint64_t)status << 8) | (uint64_t)(si + 1), (uint64_t)(st + 1));
 	// socket state sequence only: the group status seen here depends on how the starting thread and the new socket
 	// thread interleave, not on the byte stream
-	digest(W->dig_states, ((uint64_t)(si + 1) << 8) | (uint64_t)(st + 1));
+	if (sim_now_ns() < W->digest_until)
+		digest(W->dig_states, ((uint64_t)(si + 1) << 8) | (uint64_t)(st + 1));
 	if (si >= 0 && st == RTR_SHUTDOWN)
 		W->peers[(size_t)si].stopping = true;
 	sim_nopreempt_begin();
@@ -922,6 +929,12 @@ void sync_exit_locked(World &W, int si, int rc)
 	       x.qtype == 2 ? "reset" : "serial", WK[w.kind], w.why.c_str(), w.off, x.faults_fired - p.sync_faults_before, x.sync_calls > 1, from, x.bytes.size(),
 	       x.closes, (int)sock.state, x.tail, x.plan.dump().substr(0, 200).c_str());
 
+	// C06: the NEW set of a reload is what this response really carried (a response may be well-formed and still not
+	// be the cache's complete state, e.g. with an End of Data in the middle)
+	if (W.c06 && !W.wins.empty() && W.wins.back().si == si && W.wins.back().done && W.wins.back().end + 1 >= W.stamp && w.kind == WK_OK) {
+		W.wins.back().newp = w.new_pfx;
+		W.wins.back().news = w.new_spki;
+	}
 	std::set<PfxRec> allp = actual_pfx_all(W);
 	std::set<SpkiRec> alls = actual_spki_all(W);
 	std::set<PfxRec> ap = of_src(allp, si);
@@ -1086,9 +1099,10 @@ void sync_exit_locked(World &W, int si, int rc)
 			p.expect_immediate_open = true;
 			W.ctx.count("probe_downgrade_hangup");
 		}
-		else if (w.kind == WK_INCOMPLETE && w.why == "closed" && !x.at_query.has_session && b.version > 0 && faults_now == 0) {
-			// the cache hung up after sending something that is not an answer (e.g. only a Serial Notify, or a fragment):
-			// the statement neither demands nor forbids the downgrade here
+		else if (x.closes && !x.at_query.has_session && b.version > 0) {
+			// the cache hung up before a session existed, after sending something the client could not use as an answer
+			// (only a Serial Notify, a fragment, a stream garbled by an interrupted read): the statement neither demands
+			// nor forbids the downgrade here
 			p.may_downgrade = true;
 			W.ctx.count("probe_hangup_after_non_answer");
 		}
@@ -1626,6 +1640,10 @@ void run_world(const J &plan, RunCtx &ctx)
 	bool want_converge = endc.gets("mode", "time") == "converge";
 	uint64_t hard_end = t0 + max_s * SIM_NS;
 	bool stopped = false;
+	// events that fall on the very instant the run ends are ordered by the scheduler, not by the byte stream:
+	// the digests used for metamorphic comparison stop just before it
+	if (!want_converge)
+		W.digest_until = hard_end;
 	std::set<int> primary; // sockets of the most preferred group
 	{
 		size_t best = 0;
@@ -1648,6 +1666,16 @@ void run_world(const J &plan, RunCtx &ctx)
 				if (k == "stop") {
 					W.oper_busy = true;
 					rtr_mgr_stop(W.conf);
+					for (int again = 0; again < 8; again++) {
+						bool running = false;
+						for (int i = 0; i < W.n; i++)
+							if (W.socks[(size_t)i].thread_id != 0)
+								running = true;
+						if (!running)
+							break;
+						ctx.count("note_group_restarted_during_mgr_stop");
+						rtr_mgr_stop(W.conf);
+					}
 					W.oper_busy = false;
 					for (auto &g : W.ginfo)
 						g.status = RTR_MGR_CLOSED;
@@ -1822,6 +1850,19 @@ void run_world(const J &plan, RunCtx &ctx)
 	if (!stopped) {
 		W.oper_busy = true;
 		rtr_mgr_stop(W.conf);
+		// A socket of a group that is being stopped can, in its last error callback, restart a group that
+		// rtr_mgr_stop has already passed (observed; a defect outside the listed properties, see DESIGN §17).
+		// The harness must not free the manager under a running thread: stop again until nothing runs.
+		for (int again = 0; again < 8; again++) {
+			bool running = false;
+			for (int i = 0; i < W.n; i++)
+				if (W.socks[(size_t)i].thread_id != 0)
+					running = true;
+			if (!running)
+				break;
+			ctx.count("note_group_restarted_during_mgr_stop");
+			rtr_mgr_stop(W.conf);
+		}
 		for (int i = 0; i < W.n; i++)
 			if (W.peers[(size_t)i].started)
 				check_stopped_socket(W, i, "mgr-stop");
